@@ -488,6 +488,13 @@ func c18LongSession(r *rt.Rec, rng *rand.Rand, statements int) {
 		fmt.Fprintf(&sb, ` /u<s%d> "p"@[] /u<o%d>`, i, i)
 	}
 	big := sb.String() + " } ;"
+	// short statements rejected because no alternative of a production starts with
+	// the token at hand (the cheapest kind of rejection, so there are many of them)
+	for _, bad := range []string{"drop ?a ;", "create ?a ;", "select from ?g ;", "insert into ?g { } ;", "select ?a from ?g where { ?a } ;", "show ;", "delete data ?g ;", "construct { } ;", ";", "?a ;"} {
+		for k := 0; k < 12; k++ {
+			prefixes = append(prefixes, bad)
+		}
+	}
 	prefixes = append(prefixes, big, big[:len(big)-4], big[:len(big)/2], big[:len(big)-40]+" ?x ;")
 	type base struct {
 		ok bool
@@ -503,8 +510,8 @@ func c18LongSession(r *rt.Rec, rng *rand.Rand, statements int) {
 	rejected := 0
 	for n := 0; n < statements; n++ {
 		pre := prefixes[rng.Intn(len(prefixes))]
-		if n%3 == 0 {
-			pre = prefixes[len(prefixes)-1-rng.Intn(4)] // the large ones, often
+		if n%9 == 0 {
+			pre = prefixes[len(prefixes)-1-rng.Intn(4)] // the large ones, now and then
 		}
 		var err error
 		if guard(r, "Parser.Parse(long session)", trim(pre, 200), func() { err = p.Parse(grammar.NewLLk(pre, 1), &semantic.Statement{}) }) {
@@ -558,7 +565,7 @@ func init() {
 				{Name: "sentences", N: 16, Run: func(i int, r *rt.Rec) { c18Sentences(r, gen.Rng(seed, "c18s", i), sent/16) }},
 				{Name: "enumerate", N: len(kinds), Exhaustive: true, Run: func(i int, r *rt.Rec) { c18Enumerate(r, kinds[i], maxLen) }},
 				{Name: "stateless", N: 16, Run: func(i int, r *rt.Rec) { c18Stateless(r, gen.Rng(seed, "c18d", i), rounds/16) }},
-				{Name: "long-session", N: 8, Run: func(i int, r *rt.Rec) { c18LongSession(r, gen.Rng(seed, "c18l", i), rounds/8) }},
+				{Name: "long-session", N: 8, Run: func(i int, r *rt.Rec) { c18LongSession(r, gen.Rng(seed, "c18l", i), 9000+rounds/8) }},
 				{Name: "parallel-parsers", N: 8, Procs: 16, Run: func(i int, r *rt.Rec) { c18Parallel(r, gen.Rng(seed, "c18p", i), rounds/2000) }},
 				{Name: "parallel-parsers-race", N: 4, Race: true, Procs: 16, Run: func(i int, r *rt.Rec) { c18Parallel(r, gen.Rng(seed, "c18pr", i), rounds/10000) }},
 			}
